@@ -58,6 +58,10 @@ def analyse(check, proj, name):
                     vo = lc.phi(A, it, -a, -b)
                     nfree += lc.free_used
                 except AnalysisError as e:
+                    v_ = getattr(e, "violation", None)
+                    if v_ is not None and (len(v_) < 5 or check.pid in v_[4]):
+                        bad(v_[0], v_[2], v_[3])
+                        continue
                     if "division by literal zero" in str(e):
                         bad("LIM-DEFINED", "in region %s the body divides by an expression that vanishes there (0/0): numpy evaluates both branches of np.where before selecting, so plain Python floats raise ZeroDivisionError and arrays compute an invalid value first" % rname, "defined")
                     else:
@@ -348,6 +352,43 @@ def fresh_result(check, proj, name):
         check.ok("LIM-FRESH", f.qualname, "the result is a fresh value: no out= into, and no return of, module-level storage", f.loc(), nontrivial=False)
 
 
+def pure_and_unwrapped(check, proj, name):
+    """LIM-PURE: a limiter only reads its arguments (MUSCL passes overlapping views of one gradient array: an in-place
+    change made for the L state is read by the R state) -- decided from the effect summaries (alias.py), numpy's
+    no-copy conversions (np.asarray of a float array IS that array) included.
+    LIM-WRAP: a decorator that catches an exception of the wrapped limiter and returns a substitute (zeros ...) makes
+    the result of EVERY entry depend on whether ANY entry faulted: not elementwise."""
+    import ast
+    from ..common_rules import alias_analysis
+    mod = proj.module("xnum")
+    f = mod.functions[name]
+    an = alias_analysis(proj)
+    muts = [(o, v) for o, v in an.summ[f.qualname].mut.items() if o.startswith("P:") and v[3] == "inplace"]
+    if muts:
+        o, (ln, text, via, kind) = muts[0]
+        check.violation("LIM-PURE", f.qualname, "the limiter changes its argument `%s` in place (`%s`, line %d%s): the caller's slope array is overwritten -- MUSCL calls it with two overlapping views of one gradient array, so the second call reads what the first one wrote; symmetry and oddness fail for a re-used array" % (o[2:], text[:50], ln, (", through " + via) if via else ""), f.loc(), key="inplace-arg")
+    else:
+        check.ok("LIM-PURE", f.qualname, "the arguments are only read (no in-place operation reaches them, no-copy conversions followed)", f.loc(), nontrivial=False)
+    # decorators defined in the module
+    bad = None
+    for d in f.node.decorator_list:
+        e = d.func if isinstance(d, ast.Call) else d
+        dn = e.id if isinstance(e, ast.Name) else None
+        g = mod.functions.get(dn) if dn else None
+        if g is None:
+            bad = ("an unknown decorator `%s`" % ast.unparse(e), None)
+            continue
+        for n in ast.walk(g.node):
+            if isinstance(n, ast.ExceptHandler) and not (n.body and isinstance(n.body[-1], ast.Raise)):
+                bad = ("the decorator `%s` catches %s from the wrapped limiter and substitutes another result (line %d)" % (dn, ast.unparse(n.type) if n.type is not None else "every exception", n.lineno), n.lineno)
+    if bad and bad[1] is not None:
+        check.violation("LIM-WRAP", f.qualname, "%s: one faulting entry (an underflow in an unselected np.where branch, a subnormal product) replaces the values of ALL entries of that call -- the result at one position depends on the others, and phi(a,a) = a fails for the ordinary entries of such an array" % bad[0], f.loc(), key="wrap-except")
+    elif bad:
+        check.undecided("LIM-WRAP", f.qualname, "%s: what calling the limiter means is not modelled" % bad[0], f.loc())
+    else:
+        check.ok("LIM-WRAP", f.qualname, "not wrapped by a decorator", f.loc(), nontrivial=False)
+
+
 def body(check):
     proj = check.proj
     check.explanation = ("static analysis: each limiter body is lowered to the GVN ring and evaluated on an exhaustive partition of "
@@ -365,3 +406,4 @@ def body(check):
         check.guarded("MAG-MUST-OVERFLOW", "xnum." + n, lambda: overflow(check, proj, n, check.tier))
         check.guarded("LIM-ROUND", "xnum." + n, lambda: rounding(check, proj, n))
         check.guarded("LIM-FRESH", "xnum." + n, lambda: fresh_result(check, proj, n))
+        check.guarded("LIM-PURE", "xnum." + n, lambda: pure_and_unwrapped(check, proj, n))
